@@ -1,6 +1,8 @@
 import TinsModel.Tcp.Spec
 import TinsModel.Basic.Seq32Lemmas
 import TinsModel.Tcp.LemmasRefine
+import TinsModel.Tcp.LemmasLegacy
+import TinsModel.Tcp.Flow
 /- Property C06 — theorems (statements only here; helper lemmas live in TinsModel/Tcp/Lemmas*.lean).
 
    Conventions: an arrival history is a `List SegD` with the LATEST arrival first (so every suffix is an
@@ -152,6 +154,105 @@ theorem complete_prefix_delivered (s : Bytes) (isn : Nat) (h : List SegD)
     simp only [this]
     omega
 
+/-- `process_payload` keeps its documented contract for ANY state and arguments: it returns true iff data was
+    appended to the delivered payload (this is what the `fix:` commit on `DataTracker::process_payload`
+    establishes; before it, a retransmission ending exactly at the delivery point returned true) -/
+theorem process_payload_true_iff_grew (t : Tracker) (seq : Nat) (payload : Bytes) :
+    (processPayload t seq payload).2 = true ↔
+      t.payload.length < (processPayload t seq payload).1.payload.length := by
+  rw [processPayload_flag]; simp
+
+/-- **Flow::process_packet**: fed with the next arrival `g` of a valid history, the flow's tracker moves as the
+    tracker model, the data callback fires iff the delivered prefix grew, and the out-of-order callback fires
+    iff the segment lies entirely below the delivery point or starts above it. -/
+theorem flow_callbacks (s : Bytes) (isn : Nat) (g : SegD) (h : List SegD)
+    (hs : s.length < 2147483648) (hisn : isn < 4294967296) (hh : HistOK s (g :: h)) :
+    let k := frontier (h.map SegD.seg) s.length
+    let res := ({ tracker := runModel isn h } : Flow).processPacket (seqOf isn g.off) (some g.data)
+    res.1.tracker = runModel isn (g :: h) ∧
+    (res.2.data = true ↔ k < frontier ((g :: h).map SegD.seg) s.length) ∧
+    (res.2.outOfOrder = true ↔ (g.off + (g.data.length : Int) < (k : Int) ∨ (k : Int) < g.off)) := by
+  intro k res
+  have hp0 := delivered_is_prefix s isn h hs hisn hh.2
+  have hp1 := delivered_is_prefix s isn (g :: h) hs hisn hh
+  have hsim := run_sim hs hisn hh.2
+  have hinv := runAbstract_AInv (tie := false) hh.2
+  have hf := AInv_frontier hinv
+  have hle0 := frontier_le (h.map SegD.seg) s.length
+  have hle1 := frontier_le ((g :: h).map SegD.seg) s.length
+  obtain ⟨hwin, hin, _⟩ := hh.1
+  have hkN : k ≤ s.length := hle0
+  have hc1 := chunkEnd_compare (isn := isn) (n := g.data.length) hs hkN hwin hin
+  have hc2 := start_compare (isn := isn) (n := g.data.length) hs hkN hwin hin
+  have hseq : (runModel isn h).seq = W isn k := by rw [hsim.seq, ← hf]
+  refine ⟨rfl, ?_, ?_⟩
+  · show (processPayload (runModel isn h) (seqOf isn g.off) g.data).2 = true ↔ _
+    rw [process_payload_true_iff_grew]
+    show (runModel isn h).payload.length < (runModel isn (g :: h)).payload.length ↔ _
+    rw [hp0, hp1, List.length_take, List.length_take]
+    show min k s.length < min (frontier ((g :: h).map SegD.seg) s.length) s.length ↔ _
+    omega
+  · show (decide (seqCompare (wrap32 (seqOf isn g.off + g.data.length)) (runModel isn h).seq < 0)
+        || decide (seqCompare (seqOf isn g.off) (runModel isn h).seq > 0)) = true ↔ _
+    rw [hseq, hc1, hc2]
+    simp only [Bool.or_eq_true, decide_eq_true_eq]
+    constructor
+    · rintro (h1 | h1)
+      · left; revert h1; split <;> (try split) <;> intro h1 <;> first | omega | (exact absurd h1 (by decide))
+      · right; revert h1; split <;> (try split) <;> intro h1 <;> first | omega | (exact absurd h1 (by decide))
+    · rintro (h1 | h1)
+      · left; rw [if_neg (by omega), if_pos h1]; decide
+      · right; rw [if_neg (by omega), if_neg (by omega)]; decide
+
+/-- **Legacy follower, same delivery guarantee.** One direction of `TCPStream` (as driven by
+    `TCPStreamFollower` after the handshake) run over a valid arrival history satisfies the same spec as the
+    new tracker: delivered = the prefix up to the frontier, next expected sequence number, every buffered
+    fragment strictly above the delivery point and equal to its slice of the stream
+    (the legacy class has no byte counter: the sum of the fragment sizes stands in for it). -/
+theorem legacy_refines_spec (s : Bytes) (isn : Nat) (h : List SegD)
+    (hs : s.length < 2147483648) (hisn : isn < 4294967296) (hh : HistOK s h) :
+    specOK s isn (h.map SegD.seg)
+      ⟨(runLegacy isn h).seq, sumSizes (runLegacy isn h).frags, (runLegacy isn h).payload, (runLegacy isn h).frags⟩
+      = true := by
+  have hsim := runLegacy_sim hs hisn hh
+  have hinv := runAbstract_AInv (tie := true) hh
+  have hk := AInv_frontier hinv
+  have hall := chunks_all_ok (isn := isn) hinv hs
+  unfold specOK
+  simp only [hk, hsim.seq, hsim.frags, hsim.payload, hinv.1.payload_eq]
+  unfold sumSizes W at *
+  simp only [beq_self_eq_true, Bool.true_and, Bool.and_true]
+  exact hall
+
+theorem legacy_delivers_prefix (s : Bytes) (isn : Nat) (h : List SegD)
+    (hs : s.length < 2147483648) (hisn : isn < 4294967296) (hh : HistOK s h) :
+    (runLegacy isn h).payload = s.take (frontier (h.map SegD.seg) s.length) := by
+  have hsim := runLegacy_sim hs hisn hh
+  have hinv := runAbstract_AInv (tie := true) hh
+  rw [AInv_frontier hinv, hsim.payload, hinv.1.payload_eq]
+
+/-- the legacy follower and the new tracker deliver the same bytes at every moment -/
+theorem legacy_equiv (s : Bytes) (isn : Nat) (h : List SegD)
+    (hs : s.length < 2147483648) (hisn : isn < 4294967296) (hh : HistOK s h) :
+    (runLegacy isn h).payload = (runModel isn h).payload ∧ (runLegacy isn h).seq = (runModel isn h).seq := by
+  have hl := runLegacy_sim hs hisn hh
+  have hm := run_sim hs hisn hh
+  have hil := runAbstract_AInv (tie := true) hh
+  have him := runAbstract_AInv (tie := false) hh
+  have e : (runAbstract true h).k = (runAbstract false h).k := by
+    rw [← AInv_frontier hil, ← AInv_frontier him]
+  refine ⟨?_, ?_⟩
+  · rw [hl.payload, hm.payload, hil.1.payload_eq, him.1.payload_eq, e]
+  · rw [hl.seq, hm.seq, e]
+
+/-- `TCPStream::generic_process` (so `update`, so the follower's data functor): true iff the stored payload
+    grew, and the payload only ever grows by appending — for any state and arguments (after the `fix:` commit) -/
+theorem legacy_update_true_iff_grew (t : LStream) (seq : Nat) (payload : Bytes) :
+    ((genericProcess t seq payload).2 = true ↔ t.payload.length < (genericProcess t seq payload).1.payload.length) ∧
+    ∃ d, (genericProcess t seq payload).1.payload = t.payload ++ d := by
+  refine ⟨?_, genericProcess_payload_append t seq payload⟩
+  rw [genericProcess_flag]; simp
+
 /-! ### non-vacuity: the hypotheses are satisfied by non-trivial histories (reordering, overlap, re-cut
     retransmission, a segment starting before the ISN, and an ISN for which the stream crosses 2^32) -/
 
@@ -168,6 +269,14 @@ example : (runModel 4294967293 exHist).payload = exStream ∧ (runModel 42949672
 example : (runModel 4294967293 (exHist.drop 1)).buf = [(0, [4, 5, 6])] ∧
     (runModel 4294967293 (exHist.drop 1)).payload = [1, 2] ∧ (runModel 4294967293 (exHist.drop 1)).total = 3 := by
   decide
+example : (runLegacy 4294967293 exHist).payload = exStream ∧ (runLegacy 4294967293 (exHist.drop 1)).frags = [(0, [4, 5, 6])] := by
+  decide
+-- the second arrival (stale start, ends at 2 > 0) makes the data callback fire and is not out of order;
+-- a retransmission of it afterwards fires nothing (this is the behaviour established by the fix)
+example : (({ tracker := runModel 4294967293 (exHist.drop 2) } : Flow).processPacket (seqOf 4294967293 (-2)) (some [9, 9, 1, 2])).2
+    = ⟨false, true⟩ := by decide
+example : (({ tracker := runModel 4294967293 (exHist.drop 1) } : Flow).processPacket (seqOf 4294967293 (-2)) (some [9, 9, 1, 2])).2
+    = ⟨false, false⟩ := by decide
 example : specOK exStream 4294967293 (exHist.map SegD.seg) (runModel 4294967293 exHist).obs = true :=
   tracker_refines_spec exStream 4294967293 exHist (by decide) (by decide) (by decide)
 -- `buffered_bytes_exact` on a history that is NOT a valid stream (conflicting data, advance_sequence)
